@@ -130,6 +130,23 @@ def gen_filtered(r: random.Random, scope: list[str], allow_tern: bool = True) ->
                 a = gen_primitive(r, scope)
             args.append(a)
         e = ("filter", e, name, args)
+    if r.random() < 0.08:
+        # a lambda-aware filter with a one-parameter arrow function; the parameter
+        # often shadows a variable of the template
+        param = r.choice(["i", "x", "a", "it"])
+        lf = r.choice(["map", "where", "reject", "find", "find_index", "has"])
+        seq = r.choice([("path", "xs", []), ("path", "xs", []), ("path", "s", []), ("range", ("lit", 1), ("lit", 3)),
+                        ("path", "d", []), gen_path(r, scope, 1)])
+        if lf == "map":
+            body: tuple = ("path", param, [("key", r.choice(KEYS))] if r.random() < 0.6 else [])
+        else:
+            body = r.choice([("cmp", r.choice(["==", "!=", ">", "<"]), ("path", param, []), r.choice([("lit", 1), ("lit", 2), ("lit", "a"), ("path", "n", [])])),
+                             ("path", param, []), ("path", param, [("key", r.choice(KEYS))]),
+                             ("and", ("path", param, []), ("cmp", "!=", ("path", param, []), ("lit", 2)))])
+        e = ("lfilter", seq, lf, param, body)
+        if r.random() < 0.5:
+            e = ("filter", e, r.choice(["join", "size", "first", "default"]), [])
+        return e
     if allow_tern and r.random() < 0.12:
         cond = gen_bool(r, scope, 1)
         alt = gen_filtered(r, scope, False) if r.random() < 0.7 else None
@@ -373,6 +390,8 @@ def p_expr(e: tuple, top: bool = True) -> str:
     if t == "filter":
         args = ", ".join(p_expr(a) for a in e[3])
         return p_expr(e[1]) + " | " + e[2] + (": " + args if args else "")
+    if t == "lfilter":
+        return f"{p_expr(e[1])} | {e[2]}: {e[3]} => {p_expr(e[4])}"
     if t == "tern":
         s = f"{p_expr(e[2])} if {p_expr(e[1])}"
         if e[3] is not None:
@@ -532,6 +551,9 @@ def c_expr(e: tuple) -> str:
         return f"(ECmp {_CMP[e[1]]} {c_expr(e[2])} {c_expr(e[3])})"
     if t == "filter":
         return f"(EFilter {c_expr(e[1])} {_FN[e[2]]} {C.clist([c_expr(a) for a in e[3]], 'expr')})"
+    if t == "lfilter":
+        lf = {"map": "LMap", "where": "LWhere", "reject": "LReject", "find": "LFind", "find_index": "LFindIndex", "has": "LHas"}[e[2]]
+        return f"(EFilterL {c_expr(e[1])} {lf} {C.cstr(e[3])} {c_expr(e[4])})"
     if t == "tern":
         alt = C.copt(c_expr(e[3]) if e[3] is not None else None, "expr")
         return f"(ETernary {c_expr(e[1])} {c_expr(e[2])} {alt})"
